@@ -3,6 +3,8 @@
    Output line: <id> <result...>
    bytes are hex ("-" = empty); lists are a count followed by the elements. *)
 module ZA = Z   (* zarith, before Model shadows the name Z *)
+type str = string (* OCaml strings, before Model shadows the name string *)
+module Str_ = Stdlib.String
 open Model
 
 let rec pos_of_int i =
@@ -10,8 +12,10 @@ let rec pos_of_int i =
   else if i land 1 = 0 then XO (pos_of_int (i lsr 1))
   else XI (pos_of_int (i lsr 1))
 let n_of_int i = if i = 0 then N0 else if i < 0 then failwith "n_of_int" else Npos (pos_of_int i)
+let z_of_int i = if i = 0 then Z0 else if i > 0 then Zpos (pos_of_int i) else Zneg (pos_of_int (-i))
 let rec int_of_pos = function XH -> 1 | XO p -> 2 * int_of_pos p | XI p -> 2 * int_of_pos p + 1
 let int_of_n = function N0 -> 0 | Npos p -> int_of_pos p
+let int_of_z = function Z0 -> 0 | Zpos p -> int_of_pos p | Zneg p -> - (int_of_pos p)
 let rec nat_of_int i = if i <= 0 then O else S (nat_of_int (i - 1))
 let int_of_nat n = let rec go acc = function O -> acc | S m -> go (acc + 1) m in go 0 n
 
@@ -21,11 +25,13 @@ let rec zar_of_pos = function
   | XO p -> ZA.shift_left (zar_of_pos p) 1
   | XI p -> ZA.succ (ZA.shift_left (zar_of_pos p) 1)
 let zar_of_n = function N0 -> ZA.zero | Npos p -> zar_of_pos p
+let zar_of_z = function Z0 -> ZA.zero | Zpos p -> zar_of_pos p | Zneg p -> ZA.neg (zar_of_pos p)
 let hexz z = if ZA.sign z < 0 then "-" ^ ZA.format "%x" (ZA.neg z) else ZA.format "%x" z
 let rec pos_of_zar z =
   if ZA.equal z ZA.one then XH
   else if ZA.is_even z then XO (pos_of_zar (ZA.shift_right z 1))
   else XI (pos_of_zar (ZA.shift_right z 1))
+let z_of_zar z = if ZA.sign z = 0 then Z0 else if ZA.sign z > 0 then Zpos (pos_of_zar z) else Zneg (pos_of_zar (ZA.neg z))
 let n_of_zar z = if ZA.sign z = 0 then N0 else Npos (pos_of_zar z)
 
 let bytes_of_hex s =
@@ -37,10 +43,11 @@ let hex_of_bytes bs =
   if bs = [] then "-" else String.concat "" (List.map (fun b -> Printf.sprintf "%02x" (int_of_n b)) bs)
 
 (* token stream *)
-type toks = { mutable rest : string list }
+type toks = { mutable rest : str list }
 let next t = match t.rest with [] -> failwith "unexpected end of case" | x :: r -> t.rest <- r; x
 let next_int t = int_of_string (next t)
 let next_n t = n_of_zar (ZA.of_string (next t))
+let next_z t = z_of_zar (ZA.of_string (next t))
 let next_bytes t = bytes_of_hex (next t)
 let next_bool t = next t = "1"
 let next_list t f = let k = next_int t in List.init k (fun _ -> f t)
@@ -60,13 +67,73 @@ let show_outcome f = function
   | Err e -> "err " ^ err_name e
   | Panic p -> "panic " ^ panic_name p
 
+(* diagnostics rendered as the bytes the library writes *)
+let render_diag ds =
+  let out = Buffer.create 16 and err = Buffer.create 16 in
+  List.iter (function
+    | DEntropySimpleNot n ->
+        Buffer.add_string out (Printf.sprintf "entropySimple: There must be a positive number of elements. Not %s\n" (ZA.to_string (zar_of_z n)))
+    | DDuplicates n ->
+        Buffer.add_string err (Printf.sprintf "%s duplicate words found when setting up word list generator\n" (ZA.to_string (zar_of_z n))))
+    ds;
+  let h b = let s = Buffer.contents b in
+    if s = "" then "-" else String.concat "" (List.init (String.length s) (fun i -> Printf.sprintf "%02x" (Char.code s.[i]))) in
+  Printf.sprintf "stdout=%s stderr=%s" (h out) (h err)
+let no_diag = "stdout=- stderr=-"
+
+let next_recipe t =
+  let l = next_z t in
+  let allow = next_n t in let req = next_n t in let excl = next_n t in
+  let ac = next_bytes t in
+  let rs = next_list t next_bytes in
+  let ec = next_bytes t in
+  { crLength = l; crAllow = allow; crRequire = req; crExclude = excl;
+    crAllowChars = ac; crRequireSets = rs; crExcludeChars = ec }
+let next_budget t =
+  let tr = next_z t in let fn = next_z t in let fd = next_z t in
+  { bTrials = tr; bFailNum = fn; bFailDen = fd }
+
+let show_entropy = function
+  | EntCount c -> "C:" ^ hexz (zar_of_z c)
+  | EntSimple (l, size) -> Printf.sprintf "S:%s:%s" (ZA.to_string (zar_of_z l)) (ZA.to_string (zar_of_n size))
+
+(* tokens as "<k> <hex>:<type> ..." *)
+let show_tokens (ts : (n list * n) list) =
+  String.concat " " (string_of_int (List.length ts) :: List.map (fun (v, ty) -> hex_of_bytes v ^ ":" ^ string_of_int (int_of_n ty)) ts)
+let join0 (vs : n list list) =
+  hex_of_bytes (List.concat (List.mapi (fun i v -> if i = 0 then v else N0 :: v) vs))
+
+let show_password (ts : (n list * n) list) ent consumed =
+  let atoms = List.filter_map (fun (v, ty) -> if int_of_n ty = 1 then Some v else None) ts in
+  let seps = List.filter_map (fun (v, ty) -> if int_of_n ty = 0 then Some v else None) ts in
+  Printf.sprintf "ok %s str=%s atoms=%s seps=%s ent=%s consumed=%d" (show_tokens ts)
+    (hex_of_bytes (List.concat (List.map fst ts))) (join0 atoms) (join0 seps) (show_entropy ent) consumed
+
 let run_case fam t =
   match fam with
   | "draw" ->
       let n = next_n t in
       let src = next_source t in
       let (o, consumed) = run_draw n src in
-      Printf.sprintf "%s consumed=%d stdout=- stderr=-" (show_outcome (fun i -> string_of_int (int_of_n i)) o) (int_of_n consumed)
+      Printf.sprintf "%s consumed=%d %s" (show_outcome (fun i -> string_of_int (int_of_n i)) o) (int_of_n consumed) no_diag
+  | "chargen" ->
+      let r = next_recipe t in
+      let b = next_budget t in
+      let src = next_source t in
+      let (o, consumed) = run_chargen b r src in
+      let d = render_diag (char_generate_diag r) in
+      (match o with
+       | Done cand ->
+           show_password (List.map (fun g -> (g, n_of_int 1)) cand) (char_entropy r) (int_of_n consumed) ^ " " ^ d
+       | Err e -> Printf.sprintf "err %s consumed=%d %s" (err_name e) (int_of_n consumed) d
+       | Panic p -> Printf.sprintf "panic %s consumed=%d %s" (panic_name p) (int_of_n consumed) d)
+  | "recipe" ->
+      let r = next_recipe t in
+      let (((a, c), e), den) = recipe_report r in
+      let ed = (match e with EntSimple (_, N0) -> [DEntropySimpleNot Z0] | _ -> []) in
+      Printf.sprintf "alphabet=%s count=%s ent=%s sp=%s/%s stable=1 %s" (hex_of_bytes a)
+        (hexz (zar_of_z c)) (show_entropy e) (hexz (zar_of_z c)) (hexz (zar_of_z den))
+        (render_diag (ed @ ed @ ed @ ed))
   | _ -> failwith ("unknown family " ^ fam)
 
 let () =
